@@ -18,6 +18,7 @@ from ..facts import ShapeError, call_name, calls_in, dotted, kwarg, norm, walk_n
 from ..tables import Inst, Opaque, decide
 from .gensym_rules import GENSYM, IDENT, fresh_names_rule
 from .hoist_rules import Hoister, hoist_mask_rule
+from .pairing_rules import analysis_pairing
 
 INLINE = 'fpy2/transform/func_inline.py'
 LIFT = 'fpy2/transform/lift_context.py'
@@ -273,6 +274,7 @@ RULES = [
     Rule('C09.T1', 'callee context rule: declared / with-header (REAL) / ambient', t1_callee_context, 4, 'T'),
     Rule('C09.P1', 'arguments bound in order before the body; callee locals renamed; conflicts and multi-return refused', p1_binding_and_renaming, 9, 'P,F'),
     Rule('C09.P2', 'the fresh-name generator never hands out a name it holds (identifier hash / equality / retry loop)', fresh_names_rule, 9, 'P'),
+    Rule('C09.P3', 'an analysis handed to a rewriter along with a function is the analysis of that function (inlining: one per function of the chain)', analysis_pairing((INLINE, LIFT, FVE, MONO, 'fpy2/transform/specialize.py'), 2), 2, 'P'),
     Rule('C09.G1', 'a refused call site consumes no index', g1_refusal_before_index, 2, 'G'),
     Rule('C09.G2', 'LiftContext / FreeVarElim / Monomorphize change only what they state', g2_lift_close_pin, 14, 'G'),
 ]
@@ -297,6 +299,11 @@ MUTANTS = [
     Mutant('header-arg-bind-not-emitted', INLINE, "                ctx.stmts.append(bind)", "                pass", 'C09.P1'),
     Mutant('header-args-always-wrapped', INLINE, "                if ctx.is_ctx_expr and not isinstance(arg, Var):", "                if ctx.is_ctx_expr:", 'C09.T1',
            'wrapping a plain variable read as well rounds nothing more: behaviour-preserving', expect='silent'),
+    Mutant('chain-inlined-with-root-analysis', INLINE, "                fdef_du = DefineUse.analyze(fdef)\n                vtor = _FuncInline(\n                    fdef, fdef_du, None,",
+           "                fdef_du = DefineUse.analyze(func)\n                vtor = _FuncInline(\n                    fdef, fdef_du, None,", 'C09.P3',
+           'seeded change C09c: the middle function of a chain is inlined with fresh names chosen against the root\'s names'),
+    Mutant('chain-inlined-with-caller-analysis', INLINE, "                vtor = _FuncInline(\n                    fdef, fdef_du, None,", "                vtor = _FuncInline(\n                    fdef, def_use or fdef_du, None,", 'C09.P3',
+           'the caller-supplied analysis belongs to the root function'),
     Mutant('gensym-stale-hash', GENSYM, "            ident._hash = None  # cached for the previous count\n", "", 'C09.P2',
            'the defect repaired by the fix: commit (F37)'),
     Mutant('gensym-reset-before-store', GENSYM, "            ident.count = self._counter\n            ident._hash = None  # cached for the previous count\n",
